@@ -37,6 +37,7 @@ PLAIN = [
     ("Uri", {"Defects": '{"latin1_unreserved"}', "Tier": '"quick"', "Export": "FALSE"}, "KeyExact", None),
     ("Uri", {"Defects": '{"strip_brackets"}', "Tier": '"quick"', "Export": "FALSE"}, "KeyExact", None),
     ("Uri", {"Defects": '{"rewrite_malformed"}', "Tier": '"quick"', "Export": "FALSE"}, "KeyExact", None),
+    ("Uri", {"Defects": '{"dots_before_decode"}', "Tier": '"quick"', "Export": "FALSE"}, "KeyExact", None),
     ("MC_enc", {"Defects": '{"unbound"}', "Depth": "4", "Family": '"kv"', "Export": "FALSE"}, "Judged", None),
     ("MC_enc", {"Defects": '{"static_nonce"}', "Depth": "3", "Family": '"kv"', "Export": "FALSE"}, "FreshNonces", None),
     ("MC_enc", {"Defects": '{"no_auth"}', "Depth": "3", "Family": '"kv"', "Export": "FALSE"}, "Judged", None),
